@@ -29,9 +29,15 @@ LOOP_STARTED = set()    # virtual pids whose workloop has been entered
 _orig_workloop = bp.Worker.workloop
 
 
+LOOP_ENDED = set()      # ... and left again (the worker is on its way out)
+
+
 def _workloop_flagged(self, *a, **kw):
     LOOP_STARTED.add(vos.cur_pid())
-    return _orig_workloop(self, *a, **kw)
+    try:
+        return _orig_workloop(self, *a, **kw)
+    finally:
+        LOOP_ENDED.add(vos.cur_pid())
 
 
 _WORKER_CODES = None
@@ -83,6 +89,7 @@ class Run:
         del tasks.INVOKED[:]
         del EXITS[:]
         LOOP_STARTED.clear()
+        LOOP_ENDED.clear()
         sched = vs.Scheduler(vs.Choices(), max_steps=100000)
         sched.intr_handler = vproc.run_pending_signals
         res = {}
@@ -114,7 +121,9 @@ class Run:
                     sched.linepoints = False
                     if self.lines:
                         linepoints.disable()
-                msgs = _frames(world.fds[outq._reader.fileno()][0].rbuf)
+                ob = world.fds[outq._reader.fileno()][0].rbuf
+                ob.data[:0] = self.drained      # what the parent had read
+                msgs = _frames(ob)
                 res = dict(pid=pid, status=vp.status, state=vp.state,
                            msgs=msgs, invoked=list(tasks.INVOKED),
                            exits=list(EXITS), counter=counter.get_obj().value,
@@ -127,7 +136,9 @@ class Run:
                            phase_at_inject=self.phase_at_inject,
                            guard_sleeps=self.guard_sleeps,
                            handler_installed=self.handler_installed,
-                           loop_started=self.loop_started)
+                           parent_blocked=self.parent_blocked,
+                           loop_started=self.loop_started,
+                           loop_ended=self.loop_ended)
             finally:
                 vproc.launcher = None
                 vctx.reset_billiard_globals()
@@ -140,9 +151,11 @@ class Run:
         synbuf = world.fds[synq._reader.fileno()][0].rbuf if synq else None
         outbuf = world.fds[outq._reader.fileno()][0].rbuf
         self.ended = False
+        self.drained = b''
         self.parent_blocked = None
         self.injected_at = None
         self.loop_started = False
+        self.loop_ended = False
         self.handler_installed = False
         self.t_injected = None
         self.phase_at_inject = None
@@ -156,6 +169,7 @@ class Run:
                 self.handler_installed = callable(
                     vp.handlers.get(self.inject[1]))
                 self.loop_started = vp.pid in LOOP_STARTED
+                self.loop_ended = vp.pid in LOOP_ENDED
                 self.t_injected = world.now
                 self.phase_at_inject = self._phase(outbuf, len(self.fed))
                 vos.v_kill(vp.pid, self.inject[1])
@@ -213,20 +227,25 @@ class Run:
                 elif p.op == 'sleep' and vt.pending.deadline is not None:
                     # inside the consumption guard: the parent's policy
                     pol = cfg.get('consume', 'prompt')
-                    sent = sum(1 for m in _frames(outbuf)
-                               if m and m[0] == READY)
+                    sent = self._phase(outbuf, 0)[1]
                     if pol == 'prompt' or (pol == 'late' and
                                            self.guard_sleeps >= 3):
                         with counter.get_lock():
                             counter.value = sent
                     self.guard_sleeps += 1
+                elif p.op == 'write' and p.obj is outbuf and \
+                        not vt.is_enabled(world.now):
+                    # result pipe full: the parent reads what is there
+                    self.drained += bytes(outbuf.data)
+                    del outbuf.data[:]
                 elif not vt.is_enabled(world.now):
                     return True                 # deadlock: reported below
         return False
 
-    @staticmethod
-    def _phase(outbuf, nfed):
-        ms = _frames(outbuf)
+    def _phase(self, outbuf, nfed):
+        class _B:
+            data = self.drained + bytes(outbuf.data)
+        ms = _frames(_B)
         return (sum(1 for m in ms if m and m[0] == ACK),
                 sum(1 for m in ms if m and m[0] == READY), nfed)
 
@@ -310,8 +329,11 @@ def spec_check(cfg, r, inject):
     # ---- exit
     if inject is None:
         if r['state'] == 'running':
-            return ('worker never exited (fed %r, end %r, unread %d)' % (
-                script, cfg.get('end', 'sentinel'), r['unread']))
+            return ('worker never exited (fed %r, end %r, unread %d, trace '
+                    'tail %r, parent blocked %r, points %d)' % (
+                        script, cfg.get('end', 'sentinel'), r['unread'],
+                        r['trace'][-5:], r.get('parent_blocked'),
+                        r['points']))
         n_ready = sum(readies.values())
         done_quota = quota is not None and executed >= quota
         if done_quota:
@@ -368,12 +390,15 @@ def term_check(cfg, r, inject):
         if [m for m in r['msgs'] if m and m[0] == ACK]:
             return 'a worker signalled during start-up still took a job'
         return None
-    if not r['handler_installed']:
-        # already on its way out (the disposition was reset by an earlier
+    if not r['handler_installed'] or r['loop_ended']:
+        # already on its way out by itself (job loop left; or the
+        # disposition was reset by an earlier
         # signal, or the signal is ignored while the death notice is sent)
         if r['state'] == 'running':
-            return ('an exiting worker did not exit after another '
+            return ('an exiting worker did not exit after a '
                     'termination signal at point %d (%s)' % (step, op))
+        if len(r['exits']) > 1:
+            return 'exit callback ran %d times' % len(r['exits'])
         return None
     if r['state'] == 'running':
         sig = None
